@@ -387,3 +387,47 @@ func H_C09_variadic_arguments_unchanged() {
 	verifAssert(r.Count() == 3 && o.Count() == 3, "Pluck keeps exactly the requested keys and leaves the receiver unchanged")
 	verifReach("end")
 }
+
+// deriving operations on receivers that hold nested containers two levels deep: receiver and argument keep
+// the identical nested containers with the identical content (nothing is written back into the source), and a
+// later Clear of the receiver does not reach into containers the results still hold
+func H_C09_nested_content_untouched() {
+	x := nondetInt()
+	deep := NewList(x)
+	mid := NewList(deep, 1)
+	midO := NewObject("d", deep)
+	l := NewList(mid, midO, 2)
+	o := NewObject("m", mid, "o", midO)
+	var results []any
+	switch nondetIntRange(0, 6) {
+	case 0:
+		results = append(results, l.SubList(0, 0))
+	case 1:
+		results = append(results, l.Concat(NewList(mid)))
+	case 2:
+		results = append(results, l.Filter(func(v any) bool { return true }))
+	case 3:
+		results = append(results, o.Merge(NewObject("z", 1)), o.Merge(o))
+	case 4:
+		results = append(results, o.Pluck("m"), o.Values())
+	case 5:
+		results = append(results, l.Clone(), o.Clone())
+	default:
+		results = append(results, l.Map(func(i int, v any) any { return v }))
+	}
+	verifAssert(l.Get(0) == any(mid) && l.Get(1) == any(midO) && o.Get("m") == any(mid) && o.Get("o") == any(midO), "a deriving operation leaves the receiver's slots holding the identical containers")
+	verifAssert(mid.Get(0) == any(deep) && midO.Get("d") == any(deep) && mid.Count() == 2 && deep.Count() == 1 && deep.GetInt(0) == x, "a deriving operation leaves nested containers of the receiver unchanged (identity and content, two levels down)")
+	var snaps []mval
+	for _, r := range results {
+		snaps = append(snaps, hSnapAny(r))
+	}
+	if nondetIntRange(0, 1) == 0 {
+		l.Clear()
+	} else {
+		o.Clear()
+	}
+	for i, r := range results {
+		verifAssert(hExact(snaps[i], hSnapAny(r)), "Clear on the receiver does not change a result derived from it (nor the containers the result still holds)")
+	}
+	verifReach("end")
+}
